@@ -1,4 +1,574 @@
 import FqModel.Proto
-/-! driver for C19 (stub — replaced by the property's own driver) -/
-open FqModel.Proto
-def main : IO Unit := run (fun _ _ => "BADOP driver-stub")
+import FqModel.Bits
+import FqModel.Reasm
+/-! driver for C19 — TCP streams and IPv4 datagrams are reassembled exactly
+
+  case line (written by harness/cmd/c19, see kase.go / main.go there):
+    cap <fmt> <links> (C <ipA> <portA> <ipB> <portB> <isnA> <isnB> <dataA> <dataB>)+ P <pkt>* [@note]*
+        TAB  fq <format> S (K <6 client fields> <6 server fields>)* (R <datagram>)* T=<same|diff…> X <call>* flush <call>*
+    linktable TAB <linktype>=<method>…      (the dispatch table of format/pcap/shared.go, dumped from the binary)
+
+  What is computed for a `cap` line
+    1. the abstract packet list is replayed: IPv4 fragments are put together by the REFERENCE `defragGroup`
+       (arrival order, per source/destination/identification), TCP headers of reassembled datagrams are parsed,
+       giving the list of captured TCP segments per connection and direction;
+    2. REFERENCE per direction: `reasmFrom` over the captured segments from the initial sequence number (SYN
+       captured) or from the lowest captured byte (no SYN): expected stream, "segments beyond the first hole
+       exist", number of missing bytes below the last captured byte;
+    3. PREDICATE on fq's observation, against the data the case says was SENT: every connection reported once,
+       with the right addresses and ports; each direction's stream = sent[base, first missing byte);
+       skipped_bytes > 0 ⇔ something was captured beyond the first missing byte; has_start / has_end only if a
+       SYN / FIN of that direction is in the capture; client = sender of the SYN when the capture starts with it;
+       ipv4_reassembled = the reference datagrams in order of completion;
+    4. MODEL of fq's own code: `newConn` for the first packet of every connection, `reassembledSG` folded over the
+       recorded calls of gopacket's assembler (X), `acceptReassembled` for completed datagrams; its result must
+       equal fq's report field by field (DIVERGE otherwise); the recorded calls must satisfy the interface
+       assumption (`flushDiscipline`, in-order delivery of sent bytes) and the harness must have seen the traced
+       Decoder end in the state fq reported (T=same);
+    5. known findings: a PROPFAIL is reported as KNOWN only if it is explained exactly by
+       `defrag-length` (fq drops a reassembled datagram whose payload length equals the total length of the
+       fragment that completed it — the model predicts the drop and fq's report equals the prediction), or lies in
+       a direction of class `seq-wrap` (sequence numbers cross 2^32 and the segments of that direction do not
+       arrive exactly once and in order: gopacket's Sequence.Difference is off by one across the wrap).
+-/
+open FqModel FqModel.Proto FqModel.Reasm
+
+abbrev Bytes := List UInt8
+
+def genBytes (seed : Nat) (n : Nat) : Bytes := Id.run do
+  let mut x : UInt64 := UInt64.ofNat seed
+  let mut out : Array UInt8 := Array.mkEmpty n
+  for _ in [0:n] do
+    x := x * 6364136223846793005 + 1442695040888963407
+    out := out.push (x >>> 56).toUInt8
+  return out.toList
+
+def fnv64 (b : Bytes) : UInt64 :=
+  b.foldl (fun h c => (h ^^^ c.toUInt64) * 0x100000001b3) 0xcbf29ce484222325
+
+def hex16 (x : UInt64) : String :=
+  String.ofList ((List.range 16).map fun i => hexDigit ((x >>> (UInt64.ofNat (60 - 4 * i))).toNat % 16))
+
+def blob (b : Bytes) : String :=
+  if b.length > 2048 then s!"h{hex16 (fnv64 b)}:{b.length}"
+  else if b.isEmpty then "-" else hexOfBytes b
+
+def parseData (w : String) : Option Bytes :=
+  if w.startsWith "g" then
+    match (w.drop 1).toString.splitOn ":" with
+    | [s, n] => do
+      let s ← s.toNat?
+      let n ← n.toNat?
+      if n > 1048576 then none else some (genBytes s n)
+    | _ => none
+  else bytesOfHex w
+
+def parseIP (w : String) : Option Bytes := do
+  let ps := w.splitOn "."
+  if ps.length != 4 then none
+  let ns ← ps.mapM (·.toNat?)
+  if ns.any (· > 255) then none
+  some (ns.map UInt8.ofNat)
+
+structure CConn where
+  ip : Bytes × Bytes
+  port : Nat × Nat
+  isn : Nat × Nat
+  data : Bytes × Bytes
+deriving Inhabited
+
+def sel {β} (p : β × β) (d : Nat) : β := if d == 0 then p.1 else p.2
+
+inductive Pkt
+  | t (c d so n : Nat) (syn ack fin : Bool)
+  | f (c d id foff : Nat) (mf : Bool) (body : Bytes)
+
+structure Case where
+  fmt : String
+  links : List String
+  conns : Array CConn
+  pkts : List Pkt
+
+def parseDir (w : String) : Option Nat := if w == "a" then some 0 else if w == "b" then some 1 else none
+
+def parsePkt (nconn : Nat) (w : String) : Option Pkt :=
+  match w.splitOn ":" with
+  | ["T", c, d, so, n, fl] => do
+    let c ← c.toNat?
+    let d ← parseDir d
+    let so ← so.toNat?
+    let n ← n.toNat?
+    if c ≥ nconn then none
+    if fl != "-" && fl.toList.any (fun ch => !(ch == 'S' || ch == 'A' || ch == 'F' || ch == 'P')) then none
+    some (.t c d so n (fl.contains 'S') (fl.contains 'A') (fl.contains 'F'))
+  | ["F", c, d, id, fo, mf, hx] => do
+    let c ← c.toNat?
+    let d ← parseDir d
+    let id ← id.toNat?
+    let fo ← fo.toNat?
+    let body ← bytesOfHex hx
+    if c ≥ nconn || fo % 8 != 0 || !(mf == "0" || mf == "1") then none
+    some (.f c d id fo (mf == "1") body)
+  | _ => none
+
+partial def parseConns (ws : List String) (acc : Array CConn) : Option (Array CConn × List String) :=
+  match ws with
+  | "C" :: ia :: pa :: ib :: pb :: sa :: sb :: da :: db :: rest => do
+    let ia ← parseIP ia
+    let ib ← parseIP ib
+    let pa ← pa.toNat?
+    let pb ← pb.toNat?
+    let sa ← sa.toNat?
+    let sb ← sb.toNat?
+    let da ← parseData da
+    let db ← parseData db
+    if pa > 65535 || pb > 65535 || sa ≥ 4294967296 || sb ≥ 4294967296 then none
+    parseConns rest (acc.push ⟨(ia, ib), (pa, pb), (sa, sb), (da, db)⟩)
+  | "P" :: rest => some (acc, rest)
+  | _ => none
+
+def parseCase (op : String) : Option Case :=
+  match (words op).filter (fun w => !w.startsWith "@") with
+  | "cap" :: fmt :: links :: rest => do
+    let (conns, ps) ← parseConns rest #[]
+    let pkts ← ps.mapM (parsePkt conns.size)
+    let links := links.splitOn "+"
+    if links.isEmpty || links.any (fun l => (linkSpec l).isNone) then none
+    -- every T packet must lie inside the data its sender sent
+    let ok := pkts.all fun p => match p with
+      | .t c d so n _ _ _ => n == 0 || (so ≥ 1 && so - 1 + n ≤ (sel conns[c]!.data d).length)
+      | _ => true
+    if !ok then none
+    some ⟨fmt, links, conns, pkts⟩
+  | _ => none
+
+/-! ### replay of the packet list: defragmentation, TCP segments -/
+
+/-- a captured TCP segment: connection, sender (0 = A, 1 = B), sequence offset relative to the ISN, payload -/
+structure Ev where
+  c : Nat
+  d : Nat
+  so : Nat
+  data : Bytes
+  syn : Bool
+  ack : Bool
+  fin : Bool
+
+structure Done where
+  src : Bytes
+  dst : Bytes
+  id : Nat
+  payload : Bytes
+  lastLen : Nat        -- total length field of the fragment that completed the datagram
+  accepted : Bool      -- `acceptReassembled`: fq's own completion test
+deriving Inhabited
+
+def be (b : Bytes) : Nat := b.foldl (fun a x => a * 256 + x.toNat) 0
+
+def ipChecksum (b : Bytes) : Nat := Id.run do
+  let rec sum : Bytes → Nat → Nat
+    | h :: l :: rest, a => sum rest (a + h.toNat * 256 + l.toNat)
+    | [h], a => a + h.toNat * 256
+    | [], a => a
+  let mut s := sum b 0
+  for _ in [0:4] do
+    s := s % 65536 + s / 65536
+  return 65535 - s
+
+def u16 (n : Nat) : Bytes := [UInt8.ofNat (n / 256 % 256), UInt8.ofNat (n % 256)]
+
+/-- the datagram gopacket serialises for fq (flowsdecoder.go:222-231): header of the completing fragment with
+    flags/offset cleared, lengths and checksum fixed -/
+def datagram (src dst : Bytes) (id : Nat) (payload : Bytes) : Bytes :=
+  let h0 : Bytes := [0x45, 0] ++ u16 (20 + payload.length) ++ u16 id ++ [0, 0, 64, 6]
+  let h1 : Bytes := src ++ dst
+  h0 ++ u16 (ipChecksum (h0 ++ [0, 0] ++ h1)) ++ h1 ++ payload
+
+/-- parse the TCP header of a reassembled datagram and attribute it to a connection of the case -/
+def tcpOf (conns : Array CConn) (src dst : Bytes) (p : Bytes) : Option Ev := do
+  if p.length < 20 then none
+  let sport := be (p.take 2)
+  let dport := be ((p.drop 2).take 2)
+  let seq := be ((p.drop 4).take 4)
+  let doff := (p.getD 12 0).toNat / 16
+  let fl := (p.getD 13 0).toNat
+  if doff < 5 || doff * 4 > p.length then none
+  let data := p.drop (doff * 4)
+  let idx := (List.range conns.size).findSome? fun i =>
+    let c := conns[i]!
+    if c.ip.1 == src && c.ip.2 == dst && c.port.1 == sport && c.port.2 == dport then some (i, 0)
+    else if c.ip.2 == src && c.ip.1 == dst && c.port.2 == sport && c.port.1 == dport then some (i, 1)
+    else none
+  let (c, d) ← idx
+  let isn := sel conns[c]!.isn d
+  some ⟨c, d, (seq + 4294967296 - isn) % 4294967296, data, fl / 2 % 2 == 1, fl / 16 % 2 == 1, fl % 2 == 1⟩
+
+abbrev FragKey := Bytes × Bytes × Nat
+
+structure Replay where
+  groups : List (FragKey × List (Frag UInt8)) := []
+  evsRef : Array Ev := #[]     -- reference world: every completed datagram counts
+  evsFq : Array Ev := #[]      -- fq model: datagrams failing `acceptReassembled` are lost
+  done : Array Done := #[]
+  unseen : Nat := 0            -- packets on an interface whose link type the dispatch table does not serve as specified
+
+def replay (k : Case) : Replay := Id.run do
+  let mut r : Replay := {}
+  let mut i := 0
+  for p in k.pkts do
+    let link := k.links[i % k.links.length]!
+    i := i + 1
+    let served := match linkSpec link with
+      | some (num, dec) => linkToDecodeFn num == some dec
+      | none => false
+    match p with
+    | .t c d so n syn ack fin =>
+      let cc := k.conns[c]!
+      let data := if n == 0 then [] else ((sel cc.data d).drop (so - 1)).take n
+      let ev : Ev := ⟨c, d, so, data, syn, ack, fin⟩
+      r := { r with evsRef := r.evsRef.push ev }
+      if served then r := { r with evsFq := r.evsFq.push ev } else r := { r with unseen := r.unseen + 1 }
+    | .f c d id foff mf body =>
+      let cc := k.conns[c]!
+      let src := sel cc.ip d
+      let dst := sel cc.ip (1 - d)
+      let key : FragKey := (src, dst, id)
+      let old := (r.groups.lookup key).getD []
+      let grp := old ++ [⟨foff, mf, body⟩]
+      match defragGroup grp with
+      | none => r := { r with groups := (key, grp) :: r.groups.filter (fun g => g.1 != key) }
+      | some payload =>
+        let lastLen := 20 + body.length
+        let acc := acceptReassembled payload.length lastLen
+        r := { r with groups := r.groups.filter (fun g => g.1 != key),
+                      done := r.done.push ⟨src, dst, id, payload, lastLen, acc && served⟩ }
+        match tcpOf k.conns src dst payload with
+        | none => pure ()
+        | some ev =>
+          r := { r with evsRef := r.evsRef.push ev }
+          if acc && served then r := { r with evsFq := r.evsFq.push ev }
+      if !served then r := { r with unseen := r.unseen + 1 }
+  return r
+
+/-- `Accept` (= TCPSimpleFSM.CheckState) over the TCP segments that reach the assembler: the accepted ones, and
+    the number of rejected segments that carry data or SYN / FIN -/
+def fsmFilter (evs : Array Ev) : Array Ev × Nat := Id.run do
+  let mut states : List (Nat × Nat × Fsm) := []     -- connection, direction of its first packet, state
+  let mut out : Array Ev := #[]
+  let mut rejected := 0
+  for e in evs do
+    let (first, t) := match states.find? (fun s => s.1 == e.c) with
+      | some (_, f, t) => (f, t)
+      | none => (e.d, {})
+    let r := fsmCheck t e.syn e.ack e.fin false (e.d != first)
+    states := (e.c, first, r.1) :: states.filter (fun s => s.1 != e.c)
+    if r.2 then out := out.push e
+    else if !e.data.isEmpty || e.syn || e.fin then rejected := rejected + 1
+  return (out, rejected)
+
+/-! ### reference per direction -/
+
+structure DirRef where
+  present : Bool          -- at least one segment of this direction is in the capture
+  hasSyn : Bool
+  hasFin : Bool
+  base : Nat              -- data offset the stream starts at
+  stop : Nat              -- first missing byte
+  stream : Bytes          -- reference stream (from the captured payloads)
+  beyondHole : Bool
+  missing : Nat           -- uncovered byte positions between the first missing byte and the last captured one
+  wraps : Bool            -- the sequence numbers in play cross 2^32
+  clean : Bool            -- the data segments arrive exactly once and in order
+
+def dirRef (k : Case) (evs : Array Ev) (c d : Nat) : DirRef :=
+  let mine := evs.toList.filter fun e => e.c == c && e.d == d
+  let dataEvs := mine.filter fun e => !e.data.isEmpty && e.so ≥ 1
+  let segs : List (Seg UInt8) := dataEvs.map fun e => Seg.mk' (e.so - 1) e.data
+  let hasSyn := mine.any (·.syn)
+  let hasFin := mine.any (·.fin)
+  let minOff := segs.foldl (fun m s => min m s.off) (maxStop segs)
+  let base := if hasSyn then 0 else minOff
+  let r := reasmFrom segs base
+  let stop := prefixEnd segs base
+  let isn := sel k.conns[c]!.isn d
+  let lo := isn + 1 + (if hasSyn then 0 else minOff)
+  let hi := isn + 1 + maxStop segs + 1
+  let clean := (segs.foldl (fun (acc : Bool × Nat) s => (acc.1 && s.off == acc.2, s.stop)) (true, base)).1
+  { present := !mine.isEmpty, hasSyn, hasFin, base, stop, stream := r.1, beyondHole := r.2,
+    missing := uncoveredCount segs stop (maxStop segs - stop),
+    wraps := lo < 4294967296 && hi ≥ 4294967296, clean }
+
+/-! ### fq's observation -/
+
+structure ODir where
+  ip : String
+  port : Nat
+  skipped : Nat
+  start : Bool
+  stop : Bool
+  stream : String          -- blob text
+deriving BEq, Inhabited
+
+structure Call where
+  conn : Nat
+  s2c : Bool
+  start : Bool
+  stop : Bool
+  skip : Int
+  data : Bytes
+  flushed : Bool
+
+structure Obs where
+  format : String
+  sections : Nat
+  conns : Array (ODir × ODir)
+  reasm : Array String
+  traced : String
+  calls : Array Call
+
+def parseBool01 (w : String) : Option Bool := if w == "1" then some true else if w == "0" then some false else none
+
+def parseODir (ws : List String) : Option ODir :=
+  match ws with
+  | [ip, port, sk, st, en, stream] => do
+    let port ← port.toNat?
+    let sk ← sk.toNat?
+    let st ← parseBool01 st
+    let en ← parseBool01 en
+    some ⟨ip, port, sk, st, en, stream⟩
+  | _ => none
+
+def parseTraceData (k : Case) (w : String) : Option Bytes :=
+  if w.startsWith "r" then
+    match (w.drop 1).toString.splitOn ":" with
+    | [c, d, off, n] => do
+      let c ← c.toNat?
+      let d ← parseDir d
+      let off ← off.toNat?
+      let n ← n.toNat?
+      if c ≥ k.conns.size then none
+      let src := sel k.conns[c]!.data d
+      if off + n > src.length then none
+      some ((src.drop off).take n)
+    | _ => none
+  else bytesOfHex w
+
+def parseCall (k : Case) (flushed : Bool) (w : String) : Option Call :=
+  match w.splitOn "." with
+  | [c, d, se, skip, data] => do
+    let c ← c.toNat?
+    let s2c ← if d == "c" then some false else if d == "s" then some true else none
+    let (st, en) ← match se.toList with
+      | [a, b] => do
+        let a ← parseBool01 (String.singleton a)
+        let b ← parseBool01 (String.singleton b)
+        some (a, b)
+      | _ => none
+    let skip ← skip.toInt?
+    let data ← parseTraceData k data
+    some ⟨c, s2c, st, en, skip, data, flushed⟩
+  | _ => none
+
+partial def parseObsBody (k : Case) (ws : List String) (o : Obs) : Option Obs :=
+  match ws with
+  | [] => none
+  | "S" :: rest => parseObsBody k rest { o with sections := o.sections + 1 }
+  | "K" :: rest =>
+    if rest.length < 12 then none else do
+      let c ← parseODir (rest.take 6)
+      let s ← parseODir ((rest.drop 6).take 6)
+      parseObsBody k (rest.drop 12) { o with conns := o.conns.push (c, s) }
+  | "R" :: d :: rest => parseObsBody k rest { o with reasm := o.reasm.push d }
+  | t :: "X" :: rest =>
+    if !t.startsWith "T=" then none else do
+      let mut flushed := false
+      let mut calls : Array Call := #[]
+      for w in rest do
+        if w == "flush" then
+          if flushed then none
+          flushed := true
+        else
+          let c ← parseCall k flushed w
+          calls := calls.push c
+      if !flushed then none
+      some { o with traced := (t.drop 2).toString, calls }
+  | _ => none
+
+def parseObs (k : Case) (obs : String) : Option Obs :=
+  match words obs with
+  | "fq" :: fmt :: rest => parseObsBody k rest ⟨fmt, 0, #[], #[], "", #[]⟩
+  | _ => none
+
+/-! ### the model of fq's part, run on the recorded calls -/
+
+/-- connections in the order fq's `New` is called: first TCP segment of each 4-tuple; (case connection, sender of
+    that first segment) -/
+instance : Inhabited (Conn UInt8) := ⟨{}⟩
+
+def connOrder (evs : Array Ev) : Array (Nat × Nat) :=
+  evs.foldl (fun acc e => if acc.any (fun p => p.1 == e.c) then acc else acc.push (e.c, e.d)) #[]
+
+def modelConns (k : Case) (order : Array (Nat × Nat)) (calls : Array Call) : Option (Array (Conn UInt8)) := do
+  let mut conns : Array (Conn UInt8) := order.map fun (c, d) =>
+    let cc := k.conns[c]!
+    newConn (sel cc.ip d) (sel cc.ip (1 - d)) (u16 (sel cc.port d)) (u16 (sel cc.port (1 - d)))
+  for cl in calls do
+    if cl.conn ≥ conns.size then none
+    conns := conns.modify cl.conn fun t => reassembledSG t ⟨cl.s2c, cl.start, cl.stop, cl.skip, cl.data⟩
+  return conns
+
+def oDirOf (d : Dir UInt8) : ODir :=
+  let f := fieldFlowsDir d
+  ⟨f.ip, f.port, f.skippedBytes, f.hasStart, f.hasEnd, blob d.buffer⟩
+
+def showODir (d : ODir) : String :=
+  s!"{d.ip} {d.port} {d.skipped} {if d.start then 1 else 0} {if d.stop then 1 else 0} {(d.stream.take 40).toString}"
+
+/-- interface assumption on one direction's recorded chunks: flush discipline and in-order delivery of sent bytes -/
+def interfaceOK (sent : Bytes) (base : Nat) (chunks : List Call) : Bool :=
+  flushDiscipline false (chunks.map fun c => (c.skip, c.flushed)) &&
+  (chunks.foldl (fun (acc : Bool × Nat) c =>
+      let p := if c.skip > 0 then acc.2 + c.skip.toNat else acc.2
+      (acc.1 && c.skip ≥ -1 && c.data == (sent.drop p).take c.data.length && p + c.data.length ≤ sent.length,
+       p + c.data.length)) (true, base)).1
+
+/-! ### verdict -/
+
+structure Findings where
+  propfail : List String := []
+  wrapOnly : Bool := true      -- every failure so far lies in a direction of class seq-wrap
+  diverge : List String := []
+
+def Findings.fail (f : Findings) (why : String) (inWrap : Bool) : Findings :=
+  { f with propfail := f.propfail ++ [why], wrapOnly := f.wrapOnly && inWrap }
+
+def Findings.div (f : Findings) (why : String) : Findings := { f with diverge := f.diverge ++ [why] }
+
+/-- the property predicate: fq's report against the SENT data and the reference computed from `evs` -/
+def predicate (k : Case) (o : Obs) (evs : Array Ev) (dones : List Done) (order : Array (Nat × Nat)) : Findings := Id.run do
+  let mut f : Findings := {}
+  if o.format != (if k.fmt.startsWith "pcapng" then "pcapng" else "pcap") then
+    f := f.fail s!"format {o.format}" false
+  if o.sections != 1 then f := f.fail s!"sections {o.sections}" false
+  if o.conns.size != order.size then
+    f := f.fail s!"connections reported {o.conns.size} captured {order.size}" false
+  let mut seen : List Nat := []
+  for (oc, os) in o.conns do
+    -- attribution: the reported endpoints are the two endpoints of exactly one connection of the case
+    let hit := (List.range k.conns.size).findSome? fun i =>
+      let c := k.conns[i]!
+      if ipString c.ip.1 == oc.ip && c.port.1 == oc.port && ipString c.ip.2 == os.ip && c.port.2 == os.port then some (i, 0)
+      else if ipString c.ip.2 == oc.ip && c.port.2 == oc.port && ipString c.ip.1 == os.ip && c.port.1 == os.port then some (i, 1)
+      else none
+    match hit with
+    | none => f := f.fail s!"unknown connection {oc.ip}:{oc.port} {os.ip}:{os.port}" false
+    | some (ci, clientIs) =>
+      if seen.contains ci then f := f.fail s!"connection {ci} reported twice" false
+      seen := ci :: seen
+      let cc := k.conns[ci]!
+      -- role: when the capture of this connection starts with the pure SYN, its sender is the client
+      match evs.toList.find? (fun e => e.c == ci) with
+      | some e0 => if e0.syn && !e0.ack && e0.d != clientIs then f := f.fail s!"connection {ci}: client is not the SYN sender" false
+      | none => f := f.fail s!"connection {ci} reported but not captured" false
+      for (od, d) in [(oc, clientIs), (os, 1 - clientIs)] do
+        let r := dirRef k evs ci d
+        let sent := sel cc.data d
+        let w := r.wraps && !r.clean
+        let expect := (sent.drop r.base).take (r.stop - r.base)
+        if od.stream != blob expect then
+          f := f.fail s!"connection {ci} {if d == 0 then "A" else "B"}: stream is not sent[{r.base},{r.stop}) got {(od.stream.take 32).toString}" w
+        if blob r.stream != blob expect then
+          f := f.div s!"reference stream differs from the sent data (case inconsistent) connection {ci}"
+        if (od.skipped > 0) != r.beyondHole then
+          f := f.fail s!"connection {ci} {if d == 0 then "A" else "B"}: skipped_bytes {od.skipped} but data beyond the first missing byte captured = {r.beyondHole}" w
+        if od.start && !r.hasSyn then f := f.fail s!"connection {ci}: has_start without a SYN" false
+        if od.stop && !r.hasFin then f := f.fail s!"connection {ci}: has_end without a FIN" false
+        -- the exact count is a prediction of the reference model, not part of the property statement
+        if od.skipped != r.missing && !w then
+          f := f.div s!"connection {ci} {if d == 0 then "A" else "B"}: skipped_bytes {od.skipped} reference counts {r.missing} missing bytes"
+  -- ipv4_reassembled
+  let expectR := dones.map fun d => blob (datagram d.src d.dst d.id d.payload)
+  if o.reasm.toList != expectR then
+    f := f.fail s!"ipv4_reassembled has {o.reasm.size} datagrams, reference {expectR.length}" false
+  return f
+
+def stepCap (k : Case) (o : Obs) : String := Id.run do
+  let r := replay k
+  let refF := predicate k o r.evsRef r.done.toList (connOrder r.evsRef)
+  let dropped := r.done.toList.filter (fun d => !d.accepted)
+  -- the same predicate in the world of the fq model (datagrams failing fq's completion test are lost)
+  let (evsFq, fsmRejected) := fsmFilter r.evsFq
+  let fqF := predicate k o evsFq (r.done.toList.filter (·.accepted)) (connOrder r.evsFq)
+  -- model of fq's own part on the recorded calls
+  let mut dv : List String := fqF.diverge
+  if o.traced != "same" then dv := dv ++ [s!"traced-decoder-state-{o.traced}"]
+  let order := connOrder r.evsFq
+  match modelConns k order o.calls with
+  | none => dv := dv ++ ["trace names a connection the model does not have"]
+  | some conns =>
+    if conns.size != o.conns.size then dv := dv ++ [s!"model has {conns.size} connections"]
+    else
+      for i in [0:conns.size] do
+        let m := conns[i]!
+        let (oc, os) := o.conns[i]!
+        if oDirOf m.client != oc then dv := dv ++ [s!"connection {i} client model={showODir (oDirOf m.client)}"]
+        if oDirOf m.server != os then dv := dv ++ [s!"connection {i} server model={showODir (oDirOf m.server)}"]
+    -- interface assumption on the recorded calls, per direction
+    for i in [0:order.size] do
+      let (ci, first) := order[i]!
+      for s2c in [false, true] do
+        let d := if s2c then 1 - first else first
+        let rf := dirRef k evsFq ci d
+        let chunks := o.calls.toList.filter fun c => c.conn == i && c.s2c == s2c
+        if !(rf.wraps && !rf.clean) then
+          if !interfaceOK (sel k.conns[ci]!.data d) rf.base chunks then
+            dv := dv ++ [s!"interface-assumption (Delivers/FlushOnlyAtEnd) violated by the recorded calls of connection {i} {if s2c then "s2c" else "c2s"}"]
+          -- `exhausts` / `flushes` of Props.C19.GopacketInterface
+          let pre := chunks.filter fun c => c.skip == 0 || c.skip == -1
+          let post := chunks.filter fun c => c.skip > 0
+          let delivered := pre.foldl (fun a c => a + c.data.length) 0
+          if rf.base + delivered != rf.stop && !(delivered == 0 && rf.stop ≤ rf.base) then
+            dv := dv ++ [s!"interface-assumption (exhausts) connection {i} {if s2c then "s2c" else "c2s"}: {delivered} bytes delivered before the first skip, reference [{rf.base},{rf.stop})"]
+          if !post.isEmpty != rf.beyondHole then
+            dv := dv ++ [s!"interface-assumption (flushes) connection {i} {if s2c then "s2c" else "c2s"}"]
+  let modelR := (r.done.toList.filter (·.accepted)).map fun d => blob (datagram d.src d.dst d.id d.payload)
+  if modelR != o.reasm.toList then dv := dv ++ [s!"ipv4_reassembled model has {modelR.length}"]
+  let suffix := match dv with
+    | [] => ""
+    | w :: _ => s!" ;DIVERGE model={w}"
+  if refF.propfail.isEmpty then
+    match dv with
+    | [] => return "OK"
+    | w :: _ => return s!"DIVERGE model={w}"
+  -- known finding 1: the failures disappear when the datagrams fq's completion test rejects are taken out
+  if !dropped.isEmpty || fsmRejected > 0 then
+    if fqF.propfail.isEmpty then
+      match dropped with
+      | d :: _ =>
+        return s!"KNOWN defrag-length reassembled datagram id={d.id} payload length {d.payload.length} = total length of its last fragment: dropped ({refF.propfail.head!}){suffix}"
+      | [] =>
+        return s!"KNOWN fsm-reorder {fsmRejected} segment(s) with data/SYN/FIN rejected by Accept (TCPSimpleFSM) ({refF.propfail.head!}){suffix}"
+    else if fqF.wrapOnly then
+      return s!"KNOWN seq-wrap {fqF.propfail.head!}{suffix}"
+  if refF.wrapOnly then
+    return s!"KNOWN seq-wrap {refF.propfail.head!}{suffix}"
+  return s!"PROPFAIL {refF.propfail.head!}{suffix}"
+
+def stepTable (obs : String) : String :=
+  let model := [0, 1, 101, 113, 228, 229, 276].filterMap fun n => (linkToDecodeFn n).map fun d => s!"{n}={d.name}"
+  -- no other link type is served
+  let extra := (List.range 400).filter fun n => (linkToDecodeFn n).isSome && ![0, 1, 101, 113, 228, 229, 276].contains n
+  if !extra.isEmpty then "BADOP model-table"
+  else verdict (" ".intercalate model) obs
+
+def stepC19 (op obs : String) : String :=
+  if op == "linktable" then stepTable obs
+  else match parseCase op with
+  | none => "BADOP op"
+  | some k =>
+    if obs.startsWith "err:" then s!"PROPFAIL fq-failed {obs}"
+    else match parseObs k obs with
+    | none => "BADOP obs"
+    | some o => stepCap k o
+
+def main : IO Unit := run stepC19
